@@ -7,11 +7,11 @@
 package main
 
 import (
-	"regexp"
 	"encoding/base64"
 	"fmt"
 	"io"
 	"mime/quotedprintable"
+	"regexp"
 	"strings"
 
 	"raven/verifh/hx"
@@ -87,6 +87,19 @@ func main() {
 		}
 		for _, p := range append(paths, absent...) {
 			ask(&probe{msg: t, text: texts[i], tok: toks[i], seq: seq, kind: "path", path: p, cmd: fmt.Sprintf("FETCH %d (BODYSTRUCTURE BODY.PEEK[%s])", seq, p)})
+		}
+		// all sections in one command (a client fetching several parts at once), in a rotated order: every item is what the
+		// command for that section alone returned
+		if len(paths) >= 2 {
+			rot := append(append([]string{}, paths[i%len(paths):]...), paths[:i%len(paths)]...)
+			if len(rot) > 12 {
+				rot = rot[:12]
+			}
+			var its []string
+			for _, p := range rot {
+				its = append(its, "BODY.PEEK["+p+"]")
+			}
+			ask(&probe{msg: t, text: texts[i], tok: toks[i], seq: seq, kind: "multi", path: strings.Join(rot, " "), cmd: fmt.Sprintf("FETCH %d (%s)", seq, strings.Join(its, " "))})
 		}
 		leaves := t.Leaves("", true)
 		for p, l := range leaves {
@@ -172,6 +185,20 @@ func main() {
 		}
 		seenOf[seq] = sn
 	}
+	// what the command for one section alone returned
+	single := map[string]string{}
+	for i, p := range ps {
+		if p.kind != "path" {
+			continue
+		}
+		if its := sx.FetchItems(parsed[i]); len(its) == 1 {
+			if v := its[0]["BODY["+strings.ToUpper(p.path)+"]"]; v != nil && !v.IsNil() {
+				single[fmt.Sprint(p.seq, " ", p.path)] = "S" + v.Str()
+			} else {
+				single[fmt.Sprint(p.seq, " ", p.path)] = "NIL"
+			}
+		}
+	}
 	classes := map[string]int{}
 	for i, p := range ps {
 		rep.Case(p.tok+" "+p.cmd, p.kind != "main")
@@ -189,6 +216,21 @@ func main() {
 		}
 		it := its[0]
 		switch p.kind {
+		case "multi":
+			for _, pp := range strings.Fields(p.path) {
+				want, ok := single[fmt.Sprint(p.seq, " ", pp)]
+				if !ok {
+					continue
+				}
+				got := "NIL"
+				if v := it["BODY["+strings.ToUpper(pp)+"]"]; v != nil && !v.IsNil() {
+					got = "S" + v.Str()
+				}
+				if got != want {
+					viol("multi-section", fmt.Sprintf("BODY[%s] asked together with other sections returns %q (%d octets); asked alone it returns %q (%d octets)", pp, clip(got, 60), len(got)-1, clip(want, 60), len(want)-1))
+				}
+			}
+			rep.Hit("multi-section:agrees")
 		case "main":
 			body, hdr, txt := it["BODY[]"].Str(), it["BODY[HEADER]"].Str(), it["BODY[TEXT]"].Str()
 			if sz := it["RFC822.SIZE"]; sz == nil || sz.Num != len(body) {
